@@ -45,6 +45,7 @@ type Contract struct {
 	LetOrder []string
 	Requires []Clause
 	Panics   []Clause // panicsunless: the call panics unless the condition holds
+	OrmPost  []Clause // assume-orm: instances of the ORM representation invariant (wf ...) assumed at every return
 	Ensures  []Clause
 	Modifies []string
 	HasMod   bool
@@ -286,6 +287,18 @@ func (sp *Spec) LoadContractFile(path, defaultPkg string) error {
 			}
 			c.Lets[parts[0]] = sx
 			c.LetOrder = append(c.LetOrder, parts[0])
+		case "assume-orm":
+			if err := need(); err != nil {
+				return err
+			}
+			sx, err := ParseOne(rest)
+			if err != nil {
+				return fmt.Errorf("%s: %s: %v", path, c.Func, err)
+			}
+			if !onlyWf(sx) {
+				return fmt.Errorf("%s: %s: assume-orm admits only (wf T S key) instances and conjunctions of them", path, c.Func)
+			}
+			c.OrmPost = append(c.OrmPost, Clause{Label: label, Sx: sx, Src: rest})
 		case "panicsunless":
 			if err := need(); err != nil {
 				return err
@@ -450,4 +463,19 @@ func (sp *Spec) LoadSpecDir(dir string) error {
 		}
 	}
 	return nil
+}
+
+func onlyWf(x *Sx) bool {
+	switch x.Head() {
+	case "wf":
+		return true
+	case "and":
+		for _, a := range x.List[1:] {
+			if !onlyWf(a) {
+				return false
+			}
+		}
+		return true
+	}
+	return false
 }
